@@ -55,6 +55,7 @@ var frameChecks = []*FrameCheck{
 	{Name: "fee-decorators-are-read-only", Props: []string{"C14", "C06"}, Packages: consensusPkgs, Run: frameFeeDecoratorsReadOnly},
 	{Name: "ante-chain-order", Props: []string{"C05", "C06"}, Packages: []string{modPfx + "ante"}, Run: frameAnteOrder},
 	{Name: "module-entry-points-delegate", Props: []string{"C15", "C14", "C03"}, Packages: consensusPkgs, Run: frameModuleEntryPoints},
+	{Name: "list-queries-hand-over-to-pagination", Props: []string{"C20"}, Packages: keeperPkgs, Run: frameListQueries},
 	{Name: "store-reached-only-through-key-builders", Props: []string{"C18"}, Packages: keeperPkgs, Run: frameStoreKeys},
 }
 
@@ -1097,4 +1098,161 @@ func frameModuleEntryPoints(p *Program, cs *ContractSet) []*FrameResult {
 	}
 	_ = n
 	return []*FrameResult{res("module-entry-points-delegate", "AppModule InitGenesis/ExportGenesis/ValidateGenesis of the four modules call the function under contract exactly once (ValidateGenesis returns its verdict), enterprise BeginBlock calls BeginBlocker, all other Begin/EndBlock hooks call no module code", bad)}
+}
+
+// ---------------------------------------------------------------- C20: what the list queries do around the pagination call
+
+// frameListQueries: the callbacks of the six paginated list queries are under contract; this obligation covers the
+// function around them.  Each calls the SDK pagination exactly once, on prefix.NewStore(ctx.KVStore(storeKey), P) with P
+// the section the query lists, with the request's own Pagination, and with the contracted function literal as callback;
+// apart from that it neither loops nor re-slices nor appends, so the response carries what the pagination collected.
+func frameListQueries(p *Program, cs *ContractSet) []*FrameResult {
+	type want struct{ fn, prefix string }
+	wants := []want{
+		{"(x/stream/keeper.Keeper).Streams", "x/stream/types.StreamKeyPrefix"},
+		{"(x/stream/keeper.Keeper).AllStreamsForSender", "x/stream/types.StreamKeyPrefix"},
+		{"(x/stream/keeper.Keeper).AllStreamsForReceiver", "x/stream/types.GetStreamsByReceiverKey"},
+		{"(x/wrkchain/keeper.Keeper).WrkChainsFiltered", "x/wrkchain/types.RegisteredWrkChainPrefix"},
+		{"(x/beacon/keeper.Keeper).BeaconsFiltered", "x/beacon/types.RegisteredBeaconPrefix"},
+		{"(x/enterprise/keeper.Keeper).EnterpriseUndPurchaseOrders", "x/enterprise/types.PurchaseOrderIDKeyPrefix"},
+	}
+	var bad []string
+	for _, w := range wants {
+		fn := p.FindFunc(strings.Replace(w.fn, "(x/", "("+modPfx+"x/", 1))
+		if fn == nil || len(fn.Blocks) == 0 {
+			bad = append(bad, w.fn+" not found")
+			continue
+		}
+		if len(findLoops(fn).headers) > 0 {
+			bad = append(bad, w.fn+" contains a loop of its own")
+		}
+		var pag []ssa.CallInstruction
+		for _, b := range fn.Blocks {
+			for _, in := range b.Instrs {
+				switch x := in.(type) {
+				case *ssa.Slice:
+					bad = append(bad, fmt.Sprintf("%s re-slices a value at %s", w.fn, posOf(p, in)))
+				case ssa.CallInstruction:
+					com := x.Common()
+					if bi, ok := com.Value.(*ssa.Builtin); ok && (bi.Name() == "append" || bi.Name() == "copy") {
+						bad = append(bad, fmt.Sprintf("%s calls %s at %s", w.fn, bi.Name(), posOf(p, in)))
+					}
+					if cf := com.StaticCallee(); cf != nil && strings.Contains(cf.String(), "cosmos-sdk/types/query.") && strings.Contains(cf.String(), "FilteredPaginate") {
+						pag = append(pag, x)
+					}
+				}
+			}
+		}
+		if len(pag) != 1 {
+			bad = append(bad, fmt.Sprintf("%s calls the SDK pagination %d times (expected once)", w.fn, len(pag)))
+			continue
+		}
+		args := pag[0].Common().Args
+		// the store argument: the first argument whose type is a KVStore
+		var storeArg, pageArg, cbArg ssa.Value
+		for _, a := range args {
+			t := a.Type().String()
+			switch {
+			case strings.Contains(t, "KVStore") || strings.Contains(t, "prefix.Store"):
+				if storeArg == nil {
+					storeArg = a
+				}
+			case strings.Contains(t, "PageRequest"):
+				pageArg = a
+			}
+			if _, ok := a.(*ssa.MakeClosure); ok && cbArg == nil {
+				cbArg = a
+			} else if f, ok := a.(*ssa.Function); ok && cbArg == nil && f.Parent() == fn {
+				cbArg = a
+			}
+		}
+		okStore := false
+		if mi, ok := storeArg.(*ssa.MakeInterface); ok {
+			storeArg = mi.X
+		}
+		if c, ok := storeArg.(*ssa.Call); ok && c.Common().StaticCallee() != nil && strings.HasSuffix(c.Common().StaticCallee().String(), "store/prefix.NewStore") {
+			a := c.Common().Args
+			parent, pfx := a[0], a[1]
+			if mi, ok := parent.(*ssa.MakeInterface); ok {
+				parent = mi.X
+			}
+			isKV := false
+			if pc, ok := parent.(*ssa.Call); ok && pc.Common().IsInvoke() == false && pc.Common().StaticCallee() != nil && strings.HasSuffix(pc.Common().StaticCallee().String(), ".KVStore") {
+				isKV = true
+			} else if pc, ok := parent.(*ssa.Call); ok && pc.Common().IsInvoke() && pc.Common().Method.Name() == "KVStore" {
+				isKV = true
+			}
+			got := ""
+			switch x := pfx.(type) {
+			case *ssa.UnOp:
+				if g, ok := x.X.(*ssa.Global); ok {
+					got = shortFn(g.Pkg.Pkg.Path() + "." + g.Name())
+				}
+			case *ssa.Call:
+				if cf := x.Common().StaticCallee(); cf != nil {
+					got = shortFn(cf.String())
+				}
+			}
+			if isKV && got == w.prefix {
+				okStore = true
+			} else {
+				bad = append(bad, fmt.Sprintf("%s paginates over prefix %q (on the module store: %v); expected %s on ctx.KVStore(storeKey)", w.fn, got, isKV, w.prefix))
+			}
+		}
+		if !okStore && len(bad) == 0 || storeArg == nil {
+			bad = append(bad, w.fn+": the paginated store is not prefix.NewStore(ctx.KVStore(storeKey), "+w.prefix+")")
+		}
+		okPage := false
+		if u, ok := pageArg.(*ssa.UnOp); ok {
+			if fa, ok := u.X.(*ssa.FieldAddr); ok {
+				if st, ok := fa.X.Type().Underlying().(*types.Pointer); ok {
+					if s, ok := st.Elem().Underlying().(*types.Struct); ok && s.Field(fa.Field).Name() == "Pagination" {
+						if isParamOrItsCell(fa.X) {
+							okPage = true
+						}
+					}
+				}
+			}
+		}
+		if !okPage {
+			bad = append(bad, w.fn+": the page request handed to the pagination is not the request's own Pagination field")
+		}
+		okCb := false
+		switch x := cbArg.(type) {
+		case *ssa.MakeClosure:
+			okCb = x.Fn.(*ssa.Function).Name() == fn.Name()+"$1"
+		case *ssa.Function:
+			okCb = x.Name() == fn.Name()+"$1"
+		}
+		if !okCb {
+			bad = append(bad, w.fn+": the callback handed to the pagination is not the function literal under contract ("+fn.Name()+"$1)")
+		}
+	}
+	return []*FrameResult{res("list-queries-hand-over-to-pagination", "each of the six paginated list queries calls the SDK pagination exactly once, over the prefix store of the section it lists, with the request's own page request and the contracted callback, and neither loops nor re-slices nor appends itself", uniq(bad))}
+}
+
+// isParamOrItsCell: v is a parameter, or a load from a local cell that only ever holds a parameter (a parameter captured
+// by a function literal lives in such a cell).
+func isParamOrItsCell(v ssa.Value) bool {
+	if _, ok := v.(*ssa.Parameter); ok {
+		return true
+	}
+	u, ok := v.(*ssa.UnOp)
+	if !ok {
+		return false
+	}
+	al, ok := u.X.(*ssa.Alloc)
+	if !ok {
+		return false
+	}
+	stores := 0
+	for _, r := range *al.Referrers() {
+		if st, ok := r.(*ssa.Store); ok && st.Addr == al {
+			stores++
+			if _, isParam := st.Val.(*ssa.Parameter); !isParam {
+				return false
+			}
+		}
+	}
+	return stores == 1
 }
